@@ -115,6 +115,7 @@ func drawCmdCase(t *simrt.Tape, name string, thorough bool) cmdCase {
 		return c
 	case "obipcr":
 		fwd, rev := "ttagataccccactatgc", "tagaacaggctcctctag"
+		circular := t.Choose(3) == 2
 		var recs []Rec
 		for i := 0; i < n; i++ {
 			body := genSeq(t, 20, 80, dna)
@@ -133,6 +134,12 @@ func drawCmdCase(t *simrt.Tape, name string, thorough bool) cmdCase {
 			default:
 				s += mutate(t, fwd, 3) + body + mutate(t, revcomp(rev), 3) + right
 			}
+			if circular && t.Choose(2) == 1 && len(s) > len(left)+len(fwd) {
+				// a circular template opened inside its forward priming site: the site spans
+				// the origin of the record
+				k := len(left) + 1 + t.Choose(len(fwd)-1)
+				s = s[k:] + s[:k]
+			}
 			recs = append(recs, Rec{ID: fmt.Sprintf("t%04d", i), Seq: s, Annot: map[string]any{"count": 1 + t.Choose(4)}})
 		}
 		c.Files["in.fasta"] = fastaText(recs, true)
@@ -141,7 +148,7 @@ func drawCmdCase(t *simrt.Tape, name string, thorough bool) cmdCase {
 			c.Args = append(c.Args, "-l", fmt.Sprint(10+t.Choose(30)))
 		}
 		c.Args = append(c.Args, "-L", fmt.Sprint(40+t.Choose(100)))
-		if t.Choose(4) == 3 {
+		if circular {
 			c.Args = append(c.Args, "--circular")
 		}
 		c.Inputs = []string{"$D/in.fasta"}
